@@ -6,7 +6,10 @@ WORK = os.path.join(VERIF, "work")
 SPEC = os.path.join(VERIF, "spec")
 HARN = os.path.join(VERIF, "harness")
 REPO = os.path.abspath(os.environ.get("VERIF_REPO", "/repo"))
-SEED = int(os.environ.get("VERIF_SEED", "1") or "1")
+try:
+    SEED = abs(int(os.environ.get("VERIF_SEED", "1") or "1")) % 1000000
+except ValueError:
+    SEED = 1
 NCPU = os.cpu_count() or 4
 
 
